@@ -681,7 +681,7 @@ private:
 
 			raw = (0x7FFFu ^ (0x3FFFu >> k)) | exp | (fraction_bits >> (k + 43));
 
-			mask = 0x1000ul << k; // bitNPlusOne
+			mask = 0x0000'0400'0000'0000 << k; // bitNPlusOne
 			if (mask & fraction_bits) {
 				std::cerr << "TBD: bitNPlusOne condition is triggered in posit<16,2>::integer_assign\n";
 				if (((mask - 1) & fraction_bits) | ((mask << 1) & fraction_bits)) raw++; // increment by 1
